@@ -451,3 +451,24 @@ Proof.
       replace (m =? 0) with false by (symmetry; apply Z.eqb_neq; lia). reflexivity.
     + cbn [orb]. apply IH; auto.
 Qed.
+
+(* `N of (<boolean>, ..)`: the implementation evaluates the items in order and
+   an undefined item ends the whole statement as undefined (emit_of_expr_tuple
+   computes the item outside the per-iteration handler), which the model
+   follows ([strict] in Sem.quantified).  Consequence, on the faithful model:
+   the result depends on the ORDER of the items - `1 of (true, X)` is true and
+   `1 of (X, true)` is undefined (so the rule does not match) when X is
+   undefined.  The documentation (differences.md: "of" accepts tuples of
+   boolean expressions; conditions.md: at least N of the items) does not say
+   what an undefined item does; harness/src/bin/c02.rs replays this pair on
+   the implementation on every run (known finding
+   C02:of-tuple-result-depends-on-item-order). *)
+Lemma of_tuple_order_refuted :
+  exists en a b,
+    eval en (EOfB QExpr (EInt 1) (ECons a (ECons b ENil))) = VBool true /\
+    eval en (EOfB QExpr (EInt 1) (ECons b (ECons a ENil))) = VUndef.
+Proof.
+  exists (mkEnv [97; 98; 99] 3 (fun _ => []) [] None (fun _ => false) (fun _ => VUndef)),
+         (EBool true), (ECmp Eq (ERead (IK 1 false false) (EInt 99)) (EInt 1)).
+  vm_compute. split; reflexivity.
+Qed.
